@@ -76,6 +76,72 @@ Theorem C15_posterior_mean_normal_eq :
 Proof. exact post_mean_exact_normal_eq. Qed.
 Print Assumptions C15_posterior_mean_normal_eq.
 
+(* The executable closed form IS the posterior mean of the executable specification -- proved on the model that runs,
+   no transcription between the mathcomp statement and the list model to trust: with the checked inverses Pe, Px of the
+   covariances meant by the user, the returned x solves  (A^T Pe A + Px) x = A^T Pe b + Px x0 ... *)
+Theorem C15_closed_form_solves_normal_equations :
+  forall (fixed : bool) (m n : nat) (A : list (list Qc)) (b x0 : list Qc) (ce cx : covform) (x : list Qc) (Pe Px : list (list Qc)),
+  cov_guard fixed ce cx ->
+  map_direct fixed m n A b x0 (Some ce) (Some cx) = Val x ->
+  let Ce := dense_of true m ce in let Cx := dense_of true n cx in
+  lg_wf m n A Ce Cx b ->
+  qinv Ce = Some Pe -> qinv Cx = Some Px -> q_sym m Pe ->
+  qmatvec (post_prec n A Pe Px) x = post_rhs n A Pe Px b x0.
+Proof. exact closed_form_solves_normal_equations. Qed.
+Print Assumptions C15_closed_form_solves_normal_equations.
+
+(* ... these equations have one solution whenever the posterior precision has a (checked) inverse ... *)
+Theorem C15_normal_equations_unique :
+  forall (n : nat) (H C : list (list Qc)) (rhs u v : list Qc),
+  qinv H = Some C -> length H = n -> wf_mat n H -> length u = n -> length v = n ->
+  qmatvec H u = rhs -> qmatvec H v = rhs -> u = v.
+Proof. exact normal_equations_unique. Qed.
+Print Assumptions C15_normal_equations_unique.
+
+(* ... hence MAP's closed form and the specification's posterior mean are the same vector *)
+Theorem C15_closed_form_equals_posterior_mean :
+  forall (fixed : bool) (m n : nat) (A : list (list Qc)) (b x0 : list Qc) (ce cx : covform) (x y : list Qc),
+  cov_guard fixed ce cx ->
+  map_direct fixed m n A b x0 (Some ce) (Some cx) = Val x ->
+  post_mean_exact m n A b x0 ce cx = Some y ->
+  let Ce := dense_of true m ce in let Cx := dense_of true n cx in
+  lg_wf m n A Ce Cx b ->
+  (forall Pe, qinv Ce = Some Pe -> q_sym m Pe) ->
+  (forall Pe Px, qinv Ce = Some Pe -> qinv Cx = Some Px -> exists C, qinv (post_prec n A Pe Px) = Some C) ->
+  length y = n -> x = y.
+Proof. exact closed_form_equals_posterior_mean. Qed.
+Print Assumptions C15_closed_form_equals_posterior_mean.
+
+(* symmetry of a precision in the sense used above is decidable by computation: P^T = P suffices *)
+Theorem C15_symmetric_by_transpose :
+  forall (k : nat) (P : list (list Qc)), wf_mat k P -> qtranspose k P = P -> q_sym k P.
+Proof. exact q_sym_of_transpose. Qed.
+Print Assumptions C15_symmetric_by_transpose.
+
+(* non-vacuity of C15_closed_form_equals_posterior_mean (all hypotheses discharged on a concrete 2x3 problem) *)
+Example C15_equals_example :
+  exists x y,
+    map_direct false 2 3 wA wb (qvec [1; 0; -1]%Q) (Some (CMatrix eCe)) (Some (CMatrix eCx)) = Val x /\
+    post_mean_exact 2 3 wA wb (qvec [1; 0; -1]%Q) (CMatrix eCe) (CMatrix eCx) = Some y /\
+    cov_guard false (CMatrix eCe) (CMatrix eCx) /\
+    lg_wf 2 3 wA (dense_of true 2 (CMatrix eCe)) (dense_of true 3 (CMatrix eCx)) wb /\
+    (forall Pe, qinv (dense_of true 2 (CMatrix eCe)) = Some Pe -> q_sym 2 Pe) /\
+    (forall Pe Px, qinv (dense_of true 2 (CMatrix eCe)) = Some Pe -> qinv (dense_of true 3 (CMatrix eCx)) = Some Px ->
+       exists C, qinv (post_prec 3 wA Pe Px) = Some C) /\
+    length y = 3%nat /\ x = y.
+Proof. exact equals_example. Qed.
+
+(* a stored matrix whose column count is not the parameter dimension (matrix-form model with an expansion geometry:
+   get_matrix() hands out the function-space matrix) is refused -- and a value is only returned for n columns.
+   With n columns but a non-identity geometry the call returns the posterior mean of the problem for the STORED matrix:
+   finding BayesianProblem.MAP|direct:matrix-model+nonidentity-geometry; the theorems above speak about that matrix *)
+Theorem C15_stored_matrix_shape :
+  forall (m n : nat) (A : list (list Qc)) (b x0 : list Qc) (Ce Cx : npcov),
+  ((exists r, In r A /\ length r <> n) -> map_core m n A b x0 Ce Cx = EValue) /\
+  (forall x, map_core m n A b x0 Ce Cx = Val x -> wf_mat n A /\ length x0 = n).
+Proof. intros m n A b x0 Ce Cx. split; [exact (map_core_shape_refused m n A b x0 Ce Cx) | intros x; exact (map_core_value_shape m n A b x0 Ce Cx x)]. Qed.
+Print Assumptions C15_stored_matrix_shape.
+
 (* "If a requested estimate cannot be computed correctly the call fails": Gaussians created with prec / sqrtcov /
    sqrtprec (no compute_cov() since) make MAP and the direct sampler raise, whichever of the two it is; a value is
    only ever returned with both covariances at hand; a length-1 prior mean with n > 1 raises *)
@@ -132,6 +198,22 @@ Theorem C15_route :
   sample_route_direct P d = match map_route P d with RDirect => true | ROptimiser => false end.
 Proof. intros P d. split; [exact (map_route_direct_iff P d) | exact (sample_route_eq_map_route P d)]. Qed.
 Print Assumptions C15_route.
+
+(* the whole cascade of sample_posterior (joint = target still a JointDistribution, s = hasattr(prior,
+   "sqrtprecTimesMean"), q = hasattr(likelihood.distribution, "sqrtprec")): Gibbs iff joint; the direct route iff not joint
+   and the closed-form condition; what each later choice implies about the posterior's structure *)
+Theorem C15_sampler_cascade :
+  forall (joint : bool) (P : pinfo) (s q : bool) (d : nat),
+  let r := sample_route joint P s q d in
+  (r = SGibbs <-> joint = true) /\
+  (r = SMapCholesky <-> joint = false /\ map_route P d = RDirect) /\
+  (r = SLinearRTO -> joint = false /\ p_model P = MLinear /\ s = true /\ q = true /\ map_route P d = ROptimiser) /\
+  (r = SUGLA -> p_prior P = DLMRF /\ p_lik P = DGaussian) /\
+  (r = SNUTS -> p_has_grad P = true /\ is_nuts_excluded (p_prior P) = false) /\
+  (r = SpCN -> (p_prior P = DGaussian \/ p_prior P = DGMRF) /\ p_lik P = DGaussian) /\
+  (r = SRegLinearRTO -> (p_prior P = DRegGaussian \/ p_prior P = DRegGMRF) /\ p_lik P = DGaussian /\ p_model P = MLinear).
+Proof. exact cascade_spec. Qed.
+Print Assumptions C15_sampler_cascade.
 
 (* _solve_max_point: L-BFGS-B exactly for a CMRF prior with a posterior gradient, else scipy's minimize; the start
    point is the given one or the ones vector; the gradient is handed over iff the density has one *)
